@@ -117,6 +117,13 @@ class Real:
         self.agents = {}
         self.last_inject = None
 
+    def ty(self, t):
+        """the Python type standing for T1/T2. In the plain executor half of the tours use, for T2, a generic alias that is created
+        anew for every call (equal and equally hashed, but never the identical object) - a legal resource type"""
+        if t == "T2" and not self.inject and self.variant % 2 == 0 and type(self) is Real:
+            return list[TY["T2"]]
+        return TY[t]
+
     def remember(self, obj, cid):
         self.ids[id(obj)] = cid
         self.keep.append(obj)
@@ -137,12 +144,16 @@ class Real:
         await self.tg.start(run)
 
     def ev_tuple(self, c, ev):
-        inv = {v: k for k, v in TY.items()}
-        return (c, tuple(sorted(inv.get(t, repr(t)) for t in ev.resource_types)), ev.resource_name, bool(ev.is_factory),
+        def name_of(t):
+            for k in ("T1", "T2"):
+                if t == TY[k] or t == list[TY["T2"]] and k == "T2":
+                    return k
+            return repr(t)
+        return (c, tuple(sorted(name_of(t) for t in ev.resource_types)), ev.resource_name, bool(ev.is_factory),
                 ev.source is self.ctx[c], ev.topic == "resource_added", ev.resource_description)
 
     def types_arg(self, ts):
-        cls = [TY[t] for t in sorted(ts)]
+        cls = [self.ty(t) for t in sorted(ts)]
         if len(cls) == 1 and self.variant % 3 == 1:
             return cls[0]
         if self.variant % 3 == 2:
@@ -190,13 +201,13 @@ class Real:
                 name = n
                 types = self.types_arg(ts)
                 if len(ts) == 1 and self.variant % 2 == 1 and flaw == "none":
-                    types = ()                       # let the type of the value decide
+                    types = ()                       # let the type of the value decide (odd variants never use the generic alias)
                 if flaw == "badname":
                     name = BAD_NAMES[self.step_no % len(BAD_NAMES)]
                 elif flaw == "nonevalue":
                     value = None
                 elif flaw == "badtype":
-                    types = [5] if self.step_no % 2 else [TY[sorted(ts)[0]], "notatype"]
+                    types = [5] if self.step_no % 2 else [self.ty(sorted(ts)[0]), "notatype"]
                 elif flaw == "badcb":
                     kwargs["teardown_callback"] = "notcallable"
                 if flaw != "none":
@@ -250,7 +261,7 @@ class Real:
                 if flaw == "none" and self.variant % 2 == 1:
                     # types through the return annotation
                     from typing import Union
-                    cls = [TY[t] for t in sorted(ts)]
+                    cls = [self.ty(t) for t in sorted(ts)]
                     try:
                         cbk.__annotations__ = {"return": cls[0] if len(cls) == 1 else Union[cls[0], cls[1]]}
                         kw = {}
@@ -276,7 +287,7 @@ class Real:
                 kw = {}
                 if opt or self.variant % 2 == 0:
                     kw["optional"] = opt
-                args = (TY[t],) if (n == "default" and self.variant % 2 == 0) else (TY[t], n)
+                args = (self.ty(t),) if (n == "default" and self.variant % 2 == 0) else (self.ty(t), n)
                 if self.shortcut(c):
                     import asphalt.core as ac
                     if api == "sync":
@@ -391,8 +402,9 @@ class Real:
                 out.append(None)
                 continue
             row = {}
-            for tn, T in TY.items():
-                got = self.ctx[c].get_resources(T)
+            for tn in ("T1", "T2"):
+                TY[tn]
+                got = self.ctx[c].get_resources(self.ty(tn))
                 for n in self.names:
                     row[f"{tn}:{n}"] = self.ids.get(id(got[n]), ("?",)) if n in got else 0
                 extra = set(got) - set(self.names)
@@ -635,7 +647,7 @@ def attribute(obs, exp_r, got_r, what, detail):
                 props.add("C03")
                 if life:
                     props.add("C13")
-            elif a == "Create":
+            elif a in ("Create", "Enter"):
                 props.add("C02")
                 if involved_gen:
                     props.add("C04")
@@ -716,6 +728,19 @@ async def check_step(real: Real, obs, to_enc, before_proj, failed_expected):
             return "closed", (cnum, e[1]), (cnum, g[1]), attribute(obs, exp_r, got_r, "closed", None)
         involved = any(is_gen(x) for x in list(e[0].values()) + list(g[0].values()))
         props = attribute(obs, exp_r, got_r, "proj", (cnum == c, involved, failed_expected))
+        # do the lookup paths disagree? get_resources() misses an entry that get_resource_nowait() still finds (or vice versa)
+        try:
+            ctxo = real.ctx[cnum]
+            if not ctxo.closed or True:
+                for k, want in e[0].items():
+                    if want != 0 and g[0].get(k) == 0 and isinstance(want, tuple) and want[0] == "s":
+                        tn, nm = k.split(":")
+                        found = ctxo.get_resource_nowait(real.ty(tn), nm, optional=True)
+                        if found is not None and real.ids.get(id(found)) == want:
+                            props = {"C02"}
+                            return "lookup-paths-disagree", (cnum, k, "get_resource_nowait finds it"), (cnum, k, "get_resources does not list it"), props
+        except Exception:  # noqa: BLE001
+            pass
         return "proj", (cnum, e[0]), (cnum, g[0]), props
     # events
     exp_ev = [(e["c"], tuple(sorted(e["types"])), e["name"], bool(e["fac"]), True, True, e["desc"]) for e in obs.get("ev", [])]
@@ -927,6 +952,8 @@ def ctx_check(prop: str, tier: str, seed: int) -> core.Report:
         graphs = [(2, 2, ["default"], False), (3, 1, ["default"], False), (1, 2, ["default"], True)] if tier == "quick" else \
                  [(2, 3, ["default"], False), (3, 2, ["default"], False), (2, 2, ["default", "alt"], False), (2, 1, ["default"], True)]
         if prop == "C02":
+            # creation and entry of a child as separate steps (the snapshot is taken at creation)
+            graphs.append((2, 1, ["default"], True))
             # the module-level shortcuts of the same names (calls made by a task whose current context is the acted-on context)
             graphs.append((2, 1, ["default", "alt"], "inj") if tier == "quick" else (2, 2, ["default", "alt"], "inj"))
     for (mc_, mr, nm, lf) in mcb:
